@@ -112,6 +112,8 @@ pub fn fence_programs() -> Vec<(String, AProg)> {
             if need >= 2 && need - 1 <= 0xFFFF { v.push((format!("blkw+instr x{o:04X} size {need}"), block(o as u16, vec![st(Nuc::Blkw((need - 1) as u16)), lst("L", Nuc::Halt)]))); }
             if need >= 2 && need - 1 <= 0xFFFF { v.push((format!("instr+blkw x{o:04X} size {need}"), block(o as u16, vec![lst("L", Nuc::Halt), st(Nuc::Blkw((need - 1) as u16))]))); }
             if need >= 1 && need <= 40 { v.push((format!("stringz x{o:04X} size {need}"), block(o as u16, vec![st(Nuc::Stringz("s".repeat(need as usize - 1)))]))); }
+            // strings of multi-byte characters (one word per UTF-8 byte): 2-, 3- and 4-byte characters filling the same sizes
+            for (ch, w) in [('é', 2u32), ('€', 3), ('𝄞', 4)] { if need >= 1 && need <= 40 && (need - 1) % w == 0 { v.push((format!("stringz of {w}-byte characters x{o:04X} size {need}"), block(o as u16, vec![st(Nuc::Stringz(std::iter::repeat(ch).take(((need - 1) / w) as usize).collect()))]))); } }
             if need <= 20 { v.push((format!("instrs x{o:04X} size {need}"), block(o as u16, (0..need).map(|_| st(Nuc::Nop(None))).collect()))); }
             if need >= 1 && need - 1 <= 0xFFFF && need >= 2 { v.push((format!("label at end x{o:04X} size {need}"), { let mut p = block(o as u16, vec![st(Nuc::Blkw((need - 1) as u16)), st(Nuc::Halt)]); p.last_mut().unwrap().labels = vec!["ENDL".into()]; p })); }
         }
